@@ -764,3 +764,123 @@ Definition run_batch_order (c : cfmt) (pd : list Z) (reqs : list (list Z * bool)
   let a := Img c pd None in
   let x := LImg c pd None in
   VL (batch_order_loop a (fst (pixel_array a)) x (fst (lz_whole x)) reqs).
+
+(* ================================================================== *)
+(* lazily read image under GEOMETRY edits (state after the D118 fix)   *)
+(* ================================================================== *)
+(* io.py ImageFileReader: _read_metadata still computes self._offset_table once, from the description the
+   file had when it was opened, but since the D118 fix read_frame_raw uses it for ENCAPSULATED data only.
+   For native data everything follows from the CURRENT metadata (the reader's metadata IS the dataset of
+   the Image, so edits of the Image are seen):
+     - number_of_frames for the guard,
+     - frame_offset = index * _bytes_per_frame_uncompressed, or (index * n_pixels) // 8 for BitsAllocated = 1,
+     - the number of bytes read.
+   (Before the fix the offset came from the table of the moment the file was opened: after Rows := 2 on 3
+   lazily read frames of 4 x 2 pixels frame 2 was read from byte 8 instead of 4, and a frame number above
+   the old NumberOfFrames was a bare IndexError - finding D118 of this check.)
+   g_c : the description as it is now; g_pd : the PixelData value in the file (the file ends with it).
+   Reads with NOTHING cached (pixel_array never called); with the cache: limg above. *)
+Record gimg := GImg { g_c : cfmt; g_pd : list Z }.
+
+(* the table _read_metadata builds for native data (no longer consulted by read_frame_raw) *)
+Definition native_table (m : fmt) : list Z :=
+  map (lazy_offset (f_bits m) (f_npx m)) (zrange (f_frames m)).
+
+(* hd.imread(..., lazy_frame_retrieval=True) *)
+Definition g_open (c : cfmt) (pd : list Z) : gimg := GImg c pd.
+
+(* read_frame_raw, native branch *)
+Definition read_frame_raw_cur (m : fmt) (pd : list Z) (i : Z) : res (list Z) :=
+  if (i <? 0) || (i >=? f_frames m) then Err "ValueError"
+  else let off := lazy_offset (f_bits m) (f_npx m) i in
+       let d := pyslice off (off + lazy_nbytes (f_bits m) (f_npx m) i) pd in
+       match d with [] => Err "OSError" | _ => Ok d end.
+
+(* Image.get_raw_frame on the lazily read image *)
+Definition g_raw (st : gimg) (f : Z) (ai : bool) : res (list Z) :=
+  let m := c_fmt (g_c st) in
+  bind (std_index (f_frames m) f ai) (fun i => read_frame_raw_cur m (g_pd st) i).
+
+(* get_stored_frame, self._pixel_array is None: get_raw_frame + decode_frame(index = standardised index) *)
+Definition g_one (st : gimg) (f : Z) (ai : bool) : res (list Z) :=
+  let c := g_c st in
+  bind (std_index (f_frames (c_fmt c)) f ai) (fun i =>
+    bind (g_raw st f ai) (fun raw => decode_native_c c i raw)).
+
+(* get_stored_frames: the same per requested number, in the order requested; np.stack *)
+Definition g_batch (st : gimg) (fs : list Z) (ai : bool) : res (list (list Z)) :=
+  match fs with
+  | [] => Err "ValueError"
+  | _ => sequence (map (fun f => g_one st f ai) fs)
+  end.
+
+(* get_frames with every transform switched off, nothing cached: the first requested number is
+   standardised while the shared transform is built; then per number reader.read_frame_raw(frame_index)
+   and the decode with index = frame_index; np.stack *)
+Definition g_frames (st : gimg) (fs : list Z) (ai : bool) : res (list (list Z)) :=
+  let c := g_c st in
+  let n := f_frames (c_fmt c) in
+  match fs with
+  | [] => Err "ValueError"
+  | f0 :: _ =>
+      match std_index n f0 ai with
+      | Err k => Err k
+      | Ok _ => sequence (map (fun f =>
+                  bind (std_index n f ai) (fun i =>
+                    bind (read_frame_raw_cur (c_fmt c) (g_pd st) i) (fun raw =>
+                      decode_native_c c i raw))) fs)
+      end
+  end.
+
+(* frame_numbers=None of get_stored_frames / get_frames: range(1, n + 1), or range(0, n) with as_indices *)
+Definition default_request (n : Z) (ai : bool) : list Z :=
+  if ai then zrange n else map (fun k => k + 1) (zrange n).
+
+Inductive gop :=
+| GOne (f : Z) (ai : bool) | GBatch (fs : list Z) (ai : bool) | GRaw (f : Z) (ai : bool)
+| GDecodeRaw (f : Z) (ai : bool)
+| GHeader (c : cfmt)       (* any edit of the pixel description, Rows / Columns / NumberOfFrames / BitsAllocated included *)
+| GFrames (fs : list Z) (ai : bool)     (* get_frames(fs, as_indices=ai, dtype=int64, all transforms off) *)
+| GBatchAll (ai : bool)                 (* get_stored_frames(None, as_indices=ai) *)
+| GFramesAll (ai : bool).               (* get_frames(None, as_indices=ai, dtype=int64, all transforms off) *)
+
+Definition gstep (st : gimg) (o : gop) : gimg * val :=
+  let c := g_c st in
+  match o with
+  | GOne f ai => (st, vans c vz_list (g_one st f ai))
+  | GBatch fs ai => (st, vans c vz_list2 (g_batch st fs ai))
+  | GRaw f ai => (st, vres vz_list (g_raw st f ai))
+  | GDecodeRaw f ai => (st, vans c vz_list (g_one st f ai))
+  | GHeader c' => (GImg c' (g_pd st), VNone)
+  | GFrames fs ai => (st, vans64 c vz_list2 (g_frames st fs ai))
+  | GBatchAll ai => (st, vans c vz_list2 (g_batch st (default_request (f_frames (c_fmt c)) ai) ai))
+  | GFramesAll ai => (st, vans64 c vz_list2 (g_frames st (default_request (f_frames (c_fmt c)) ai) ai))
+  end.
+
+Fixpoint grun_ops (st : gimg) (ops : list gop) : list val :=
+  match ops with
+  | [] => []
+  | o :: r => let p := gstep st o in snd p :: grun_ops (fst p) r
+  end.
+
+Definition run_lazy_geometry (c : cfmt) (pd : list Z) (ops : list gop) : val :=
+  VL (grun_ops (g_open c pd) ops).
+
+(* ================================================================== *)
+(* lazily read ENCAPSULATED image whose NumberOfFrames is edited        *)
+(* ================================================================== *)
+(* for encapsulated data read_frame_raw keeps using the offset table built when the file was opened (with
+   the NumberOfFrames n0 of that moment); the guard and the frame-number convention use the CURRENT
+   NumberOfFrames n *)
+Definition lazy_raw_enc_bytes_edited (eot : option (list Z)) (bot : list Z) (pls : list (list Z)) (n0 n f : Z)
+           (ai : bool) : res (list Z) :=
+  bind (offset_table eot bot (map item_of pls) n0) (fun t =>
+    bind (std_index n f ai) (fun i =>
+      rmap (join_span pls) (read_frame_raw_enc t (map item_of pls) n i))).
+
+Definition run_encaps_image_edited (eot : option (list Z)) (bot : list Z) (pls : list (list Z)) (n0 n : Z)
+           (idx : list Z) (ai : bool) : val :=
+  match offset_table eot bot (map item_of pls) n0 with
+  | Err k => VErr k
+  | Ok _ => VL (map (fun f => vres vz_list (lazy_raw_enc_bytes_edited eot bot pls n0 n f ai)) idx)
+  end.
